@@ -639,3 +639,37 @@ Proof.
   intros H. unfold run_join.
   destruct (Nat.leb_spec (length (lines_of t) - length (filter (fun c : N => N.eqb c nl) (firstn i t))) 1); [reflexivity|lia].
 Qed.
+
+(** ** j and k: the column search stays on its line *)
+Lemma at_dcol_bounds t e target : forall f p acc, (p <= at_dcol f t p e acc target)%nat /\ ((p < e)%nat -> (at_dcol f t p e acc target < e)%nat).
+Proof.
+  induction f as [|f IH]; intros p acc; cbn [at_dcol]; [split; [lia|intros; lia]|].
+  destruct (Nat.leb_spec e (S p)) as [L|L]; [split; [lia|intros; lia]|].
+  destruct (nth_error t p) as [c|]; [|split; [lia|intros; lia]].
+  destruct (Nat.ltb target (acc + cwidth c)); [split; [lia|intros; lia]|].
+  destruct (IH (S p) (acc + cwidth c)%nat) as [H1 H2]. split; [lia|intros _; apply H2; lia].
+Qed.
+
+(** j / k never leave the text: from a position in the text they land on a position in the text *)
+Theorem move_vert_in_text t down count i : (i <= length t)%nat -> (move_vert t down count i <= length t)%nat.
+Proof.
+  intros Hi. unfold move_vert. destruct down.
+  - destruct (last_line_at t i); [exact Hi|].
+    set (e := nth_line_end t i (Nat.max count 1)).
+    pose proof (nth_line_end_ge t (Nat.max count 1) i Hi) as He. fold e in He.
+    pose proof (line_start_le t e) as Hs.
+    destruct (at_dcol_bounds t e (dcol t (line_start_from t i) i) (S (length t)) (line_start_from t e) 0%nat) as [H1 H2].
+    destruct (Nat.eq_dec (line_start_from t e) e) as [E|E].
+    + (* an empty target line: the search stops at once *)
+      rewrite E. cbn [at_dcol]. destruct (Nat.leb_spec e (S e)); lia.
+    + specialize (H2 ltac:(lia)). lia.
+  - destruct (Nat.eqb (line_start_from t i) 0); [exact Hi|].
+    set (s' := up_lines t i (Nat.max count 1)).
+    pose proof (up_lines_le t (Nat.max count 1) i) as Hu. fold s' in Hu.
+    pose proof (line_start_le t i) as Hs.
+    pose proof (line_end_bounds t s' ltac:(lia)) as Hb.
+    destruct (at_dcol_bounds t (line_end t s') (dcol t (line_start_from t i) i) (S (length t)) s' 0%nat) as [H1 H2].
+    destruct (Nat.eq_dec s' (line_end t s')) as [E|E].
+    + rewrite <- E. cbn [at_dcol]. destruct (Nat.leb_spec s' (S s')); lia.
+    + specialize (H2 ltac:(lia)). lia.
+Qed.
